@@ -660,8 +660,8 @@ end Bycycle.Slots
 def frames_slots(S):
     dp = 'bycycle/utils/dataframes.py'; tp = 'bycycle/utils/timeseries.py'
     ld = lambda: _func(dp, 'limit_df')
-    lo = S.get('limit_df.lower_cmp', '.ge', lambda: _compare_by_pattern(ld(), r"df\['sample_last_' \+ side_e\]\.values", r'start \* fs'))
-    hi = S.get('limit_df.upper_cmp', '.le', lambda: _compare_by_pattern(ld(), r"df\['sample_next_' \+ side_e\]\.values", r'stop \* fs'))
+    lo = S.get('limit_df.lower_cmp', '.ge', lambda: _compare_by_pattern(ld(), r"df\['sample_last_' \+ side_e\]\.values(?: / fs)?", r'start(?: \* fs)?'))
+    hi = S.get('limit_df.upper_cmp', '.le', lambda: _compare_by_pattern(ld(), r"df\['sample_next_' \+ side_e\]\.values(?: / fs)?", r'stop(?: \* fs)?'))
     ls = lambda: _func(tp, 'limit_signal')
     slo = S.get('limit_signal.lower_cmp', '.ge', lambda: _compare_by_pattern(ls(), r'times', r'start'))
     shi = S.get('limit_signal.upper_cmp', '.lt', lambda: _compare_by_pattern(ls(), r'times', r'stop'))
@@ -670,7 +670,7 @@ def frames_slots(S):
         for n in ast.walk(ld()):
             if isinstance(n, ast.Assign) and isinstance(n.targets[0], ast.Subscript) and ast.unparse(n.targets[0].value) == 'df':
                 key = ast.unparse(n.targets[0].slice)
-                m = _re.fullmatch(r"df\[(.+)\] - int\(fs \* start\)", ast.unparse(n.value))
+                m = _re.fullmatch(r"df\[(.+)\] - int\((?:round\()?fs \* start\)?\)", ast.unparse(n.value))
                 if not m or m.group(1) != key:
                     raise ValueError('shift statement outside grammar: ' + ast.unparse(n))
                 cols.append(key)
@@ -694,7 +694,105 @@ end Bycycle.Slots
 """ % (lo, hi, slo, shi, len(sc))
     return 'SlotsFrames.lean', lean
 
-GROUPS = [detect_slots, cyclepoints_slots, shape_slots, burstfeat_slots, kwargs_shape_slots, group_slots, frames_slots]
+
+# ------------------------------------------------------------------ copy guards (C15, C14) and object helpers
+def effects_slots(S):
+    def has(path, fname, pattern):
+        def th():
+            src = ast.unparse(_func(path, fname))
+            return bool(_re.search(pattern, src))
+        return th
+    G = {}
+    G['cfCopyBk'] = S.get('guard.compute_features.copy_burst_kwargs', True,
+                          has('bycycle/features/features.py', 'compute_features', r'burst_kwargs = burst_kwargs\.copy\(\) if isinstance\(burst_kwargs, dict\) else burst_kwargs|burst_kwargs = (?:dict|deepcopy)\(burst_kwargs\)'))
+    G['cfCopyTh'] = S.get('guard.compute_features.copy_threshold_kwargs', True,
+                          has('bycycle/features/features.py', 'compute_features', r'threshold_kwargs = threshold_kwargs\.copy\(\) if isinstance\(threshold_kwargs, dict\) else threshold_kwargs|threshold_kwargs = (?:dict|deepcopy)\(threshold_kwargs\)'))
+    G['bfCopy'] = S.get('guard.compute_burst_features.copy_burst_kwargs', True,
+                        has('bycycle/features/burst.py', 'compute_burst_features', r'burst_kwargs = \{\} if burst_kwargs is None else burst_kwargs\.copy\(\)|burst_kwargs = (?:dict|deepcopy)\(burst_kwargs\)'))
+    G['deepcopy2d'] = S.get('guard.compute_features_2d.deepcopy', True, has('bycycle/group/features.py', 'compute_features_2d', r'kwargs = deepcopy\(compute_features_kwargs\)'))
+    G['deepcopy3d'] = S.get('guard.compute_features_3d.deepcopy', True, has('bycycle/group/features.py', 'compute_features_3d', r'kwargs = deepcopy\(compute_features_kwargs\)'))
+    G['edgesCopy'] = S.get('guard.recompute_edges.copy', True, has('bycycle/burst/utils.py', 'recompute_edges', r'df_features_edges = df_features\.copy\(\)'))
+    def neg_fresh():
+        fn = _func('bycycle/features/shape.py', 'compute_shape_features')
+        for n in ast.walk(fn):
+            if isinstance(n, ast.If) and ast.unparse(n.test) == "center_extrema == 'peak'":
+                br = n.orelse[0] if n.orelse and isinstance(n.orelse[0], ast.If) else None
+                if br is not None and ast.unparse(br.test) == "center_extrema == 'trough'":
+                    st = br.body[0]
+                    if isinstance(st, ast.Assign) and ast.unparse(st) in ('sig = -sig', 'sig = -1 * sig', 'sig = sig * -1', 'sig = np.negative(sig)'):
+                        return True
+                    if isinstance(st, ast.AugAssign) or 'out=sig' in ast.unparse(st):
+                        return False
+                    raise ValueError('negation statement outside grammar: ' + ast.unparse(st))
+        return None
+    G['negFresh'] = S.get('guard.compute_shape_features.negation_fresh', True, neg_fresh)
+    G['plotCopy'] = S.get('guard.plot_burst_detect_summary.copy_thresholds', True,
+                          has('bycycle/plts/burst.py', 'plot_burst_detect_summary', r'thresholds = threshold_kwargs\.copy\(\)|thresholds = (?:dict|deepcopy)\(threshold_kwargs\)'))
+    G['limitFresh'] = S.get('guard.limit_df.filter_before_write', True, has('bycycle/utils/dataframes.py', 'limit_df', r"df = df\[df\['sample_last_' \+ side_e\]\.values"))
+    G['epochFresh'] = S.get('guard.epoch_df.iloc_before_write', True, has('bycycle/utils/dataframes.py', 'epoch_df', r'df_single = df_features\.iloc\[idx_range\]'))
+    def suffixes():
+        src = ast.unparse(_func('bycycle/objs/fit.py', '__init__'))
+        m = _re.search(r"if not k\.endswith\('(\w+)'\) and k != '(\w+)':\s*self\.thresholds\[k \+ '(\w+)'\] = self\.thresholds\.pop\(k\)", src)
+        if not m: return None
+        return (m.group(1), m.group(2), m.group(3))
+    sx = S.get('objs.shorthand', ('_threshold', 'min_n_cycles', '_threshold'), suffixes)
+    def reduce_suffix():
+        src = ast.unparse(_func('bycycle/objs/fit.py', 'reduce_thresholds'))
+        m = _re.search(r"if k\.endswith\('(\w+)'\):\s*reduced_thresholds\[k\] = v - reduction\s*else:\s*reduced_thresholds\[k\] = v", src)
+        return m.group(1) if m else None
+    rs = S.get('objs.reduce_suffix', 'threshold', reduce_suffix)
+    lean = """/- GENERATED by harness/slots.py from /repo: presence of the defensive copies / fresh-object statements the purity
+   argument relies on, and the string tests of the Bycycle object helpers (bycycle/objs/fit.py). Do not edit. -/
+namespace Bycycle.Slots
+
+%s
+/-- shorthand expansion: `if not k.endswith(S1) and k != K: thresholds[k + S2] = thresholds.pop(k)`. -/
+def shorthandSuffixTest : String := "%s"
+def shorthandExempt : String := "%s"
+def shorthandAppend : String := "%s"
+/-- reduce_thresholds: `if k.endswith(S): v - reduction`. -/
+def reduceSuffix : String := "%s"
+
+end Bycycle.Slots
+""" % ('\n'.join('def guard_%s : Bool := %s' % (k, 'true' if v else 'false') for k, v in G.items()), sx[0], sx[1], sx[2], rs)
+    return 'SlotsEffects.lean', lean
+
+
+# ------------------------------------------------------------------ plots (C20)
+def plots_slots(S):
+    def offsets_round():
+        srcs = [ast.unparse(_func('bycycle/plts/burst.py', 'plot_burst_detect_summary')), ast.unparse(_func('bycycle/utils/dataframes.py', 'limit_df')),
+                ast.unparse(_func('bycycle/plts/cyclepoints.py', 'plot_cyclepoints_array'))]
+        trunc = sum(len(_re.findall(r'int\(fs \* start\)|int\(times\[0\] \* fs\)', x)) for x in srcs)
+        rnd = sum(len(_re.findall(r'int\(round\(fs \* start\)\)|int\(round\(times\[0\] \* fs\)\)', x)) for x in srcs)
+        if trunc + rnd == 0: return None
+        return trunc == 0
+    rounds = S.get('plots.offsets_rounded', True, offsets_round)
+    pa = lambda: _func('bycycle/plts/cyclepoints.py', 'plot_cyclepoints_array')
+    mlo = S.get('plots.marker_lower_cmp', '.ge', lambda: _compare_by_pattern(pa(), r'points', r'times\[0\] \* fs'))
+    mhi = S.get('plots.marker_upper_cmp', '.lt', lambda: _compare_by_pattern(pa(), r'points', r'times\[-1\] \* fs'))
+    def mask_plus():
+        src = ast.unparse(_func('bycycle/plts/burst.py', 'plot_burst_detect_summary'))
+        m = _re.search(r"samp_end_burst = int\(cyc\['sample_next_' \+ side_e\](?: \+ (\d+))?\) - ", src)
+        return int(m.group(1) or 0) if m else None
+    mp = S.get('plots.burst_mask_end_plus', 1, mask_plus)
+    lean = """/- GENERATED by harness/slots.py from /repo (bycycle/plts/*.py, limit_df). Do not edit. -/
+import BycycleModel.Basic
+namespace Bycycle.Slots
+
+/-- window offsets are `int(round(fs * start))` (true) or the truncating `int(fs * start)` (false). -/
+def offsetsRounded : Bool := %s
+/-- marker selection `points >= times[0]*fs`, `points < times[-1]*fs`. -/
+def markerLoCmp : Cmp := %s
+def markerHiCmp : Cmp := %s
+/-- burst mask: `is_osc[last - off : next + K - off] = True`. -/
+def burstMaskEndPlus : Nat := %d
+
+end Bycycle.Slots
+""" % ('true' if rounds else 'false', mlo, mhi, mp)
+    return 'SlotsPlots.lean', lean
+
+GROUPS = [detect_slots, cyclepoints_slots, shape_slots, burstfeat_slots, kwargs_shape_slots, group_slots, frames_slots, effects_slots, plots_slots]
 
 def write_if_changed(path, text):
     try:
